@@ -127,6 +127,17 @@ def c13(tier, seed):
                     break
             configs = chosen
         bad = []
+        import contextlib
+        ftid = None; ref_f = None
+        tids_ = [t for _, _, t in D.families]
+        if tids_ and all(t is not None for t in tids_):
+            ftid = ex.rng.choice(tids_)
+            try:
+                f0_ = pyham.ParserFilter(); f0_.add_hogs_via_hogId([ftid])
+                c0_, _ = canon_analysis(core.load_py(D, filter_object=f0_), [], with_profiles=False)
+                ref_f = {k_: c0_[k_] for k_ in ('forest', 'members', 'genes')}
+            except Exception as e:      # noqa
+                ftid = None
         for (tree_kind, naming, transport, prog, lt, it) in configs:
             ex.res.count('configs')
             ex.res.count('cfg_tree_' + tree_kind); ex.res.count('cfg_transport_' + transport)
@@ -166,6 +177,18 @@ def c13(tier, seed):
             k2 = first_diff(ref, got)
             if k2:
                 bad.append('configuration %s differs from the reference load in %s' % ((tree_kind, naming, transport, prog, lt, it), k2))
+            # the same configuration with a filter (one family named by its id): the same selection whatever the route
+            if ftid is not None and ex.rng.random() < 0.4:
+                try:
+                    with contextlib.redirect_stderr(io.StringIO()):
+                        ff_ = pyham.ParserFilter(); ff_.add_hogs_via_hogId([ftid])
+                        cf_, _ = canon_analysis(pyham.Ham(filter_object=ff_, **kw), [], with_profiles=False)
+                    kf_ = first_diff(ref_f, {k_: cf_[k_] for k_ in ref_f})
+                    ex.res.count('configs_also_loaded_through_a_filter')
+                    if kf_:
+                        bad.append('configuration %s with a filter on family %r differs from the filtered reference load in %s' % ((tree_kind, naming, transport, prog, lt, it), ftid, kf_))
+                except Exception as e:      # noqa
+                    bad.append('configuration %s with a filter raised %s: %s' % ((tree_kind, naming, transport, prog, lt, it), type(e).__name__, e))
         if bad:
             ex.fail(cid, D, bad)
         # the model is run under both namings; both must equal the (name-free) reference
@@ -284,10 +307,15 @@ def c14(tier, seed):
         xcount = collections.Counter(v for _, gs_ in D.species for _, xr in gs_ for _, v in xr)
         xvals = [v for v, c in xcount.items() if c >= 2] or list(xcount)
         fval = ex.rng.choice(sorted(xvals)) if xvals else None
+        fshared = pyham.ParserFilter()          # ONE filter object for the file and all its rewritings
+        if fval is not None:
+            fshared.add_hogs_via_GeneExtId([fval])
         def filtered_canon(E_):
-            f_ = pyham.ParserFilter(); f_.add_hogs_via_GeneExtId([fval])
-            c_, _ = canon_analysis(core.load_py(E_, filter_object=f_), [], with_profiles=False)
-            return {k_: c_[k_] for k_ in ('forest', 'members', 'genes')}
+            # the top-level ids of the rewriting are relabelled too (compared without ids)
+            E2_ = copy_dataset(E_)
+            E2_.groups = [('og', ('T-' + g_[1]) if g_[1] is not None else None, g_[2], g_[3]) if g_[0] == 'og' and E_ is not D else g_ for g_ in E_.groups]
+            c_, _ = canon_analysis(core.load_py(E2_, filter_object=fshared), [], with_profiles=False)
+            return dict(forest=c_['forest'], members=sorted(x.split('=', 1)[1] for x in c_['members']), genes=c_['genes'])
         ref_f = None
         if fval is not None and all(t is not None for _, _, t in D.families):
             try:
@@ -512,6 +540,8 @@ def c15(tier, seed):
             expect_key(h.get_ancestral_genome_by_name, 'no-such-clade')
             expect_key(h.get_taxon_by_name, 'no-such-taxon')
             expect_key(h.get_hog_by_gene, 'not-a-gene')
+            for t in h.taxonomy.tree.get_leaves()[:2]:
+                expect_key(h.get_ancestral_genome_by_taxon, t)         # a leaf is not an ancestral taxon, genome or not
             for t in h.taxonomy.tree.traverse():
                 if not t.is_leaf() and 'genome' not in t.features:
                     expect_key(h.get_ancestral_genome_by_taxon, t)
@@ -680,6 +710,16 @@ def c18(tier, seed):
         naming = ex.rng.choice(['own', 'synth'])
         T = gen.rand_tree(ex.rng, maxleaves=ex.rng.choice([2, 3, 4, 6, 9, 12]), fancy=ex.rng.random() < 0.6,
                           unary=(0.15 if naming == 'own' and ex.rng.random() < 0.15 else 0.0))
+        if naming == 'own' and ex.rng.random() < 0.1:
+            # internal nodes labelled with numbers (NCBI taxon ids): they are names, not support values
+            cnt_ = [9600]
+            def renum(t):
+                if not t[1]:
+                    return t
+                cnt_[0] += 7
+                return (str(cnt_[0]), tuple(renum(k_) for k_ in t[1]))
+            T = renum(T)
+            ex.res.count('trees_numeric_internal_names')
         if naming == 'own' and ex.rng.random() < 0.12:
             # a leaf that carries the name of an internal node (a clade named after one of its species, a species named
             # like a clade elsewhere): leaf names are still unique, internal names are still unique -- a legal tree
@@ -734,6 +774,26 @@ def c18(tier, seed):
         for nd in tx.tree.traverse():
             if not nd.is_leaf():
                 o.put('txsub', taxS(pathof(nd)) + '=' + tx.get_newick_from_tree(nd))
+        # the same tree read from a PhyloXML file: same names, depths, and the same Newick for every subtree (the root included)
+        if k % 4 == 0 and all(gen.display_name(T, p_, naming) for p_ in gen.paths(T)):
+            try:
+                px = os.path.join(ex.tmp, 'c18.phyloxml')
+                with open(px, 'w') as fpx:
+                    fpx.write(gen.phyloxml(T))
+                txp = pyham.taxonomy.Taxonomy(px, tree_format='phyloxml', use_internal_name=(naming == 'own'),
+                                              phyloxml_leaf_name_tag='taxonomy_scientific_name', phyloxml_internal_name_tag='taxonomy_scientific_name')
+                ex.res.count('trees_also_read_from_phyloxml')
+                for nd in txp.tree.traverse():
+                    p_ = pathof(nd)
+                    if nd.name != gen.display_name(T, p_, naming) or nd.depth != len(p_):
+                        bad.append('PhyloXML route: name / depth of %s is %r / %r' % (taxS(p_), nd.name, nd.depth))
+                    if not nd.is_leaf():
+                        want_ = gen.newick_named(T, p_, naming) + ';'
+                        got_ = txp.get_newick_from_tree(nd)
+                        if got_ != want_:
+                            bad.append('PhyloXML route: get_newick_from_tree(%s) = %r, expected %r' % (taxS(p_), got_, want_))
+            except Exception as e:      # noqa
+                bad.append('PhyloXML route raised %s: %s' % (type(e).__name__, e))
         # the stored Newick re-parses to the same named topology
         def named(T, p=()):
             t = gen.sub(T, p)
@@ -806,6 +866,8 @@ def c17(tier, seed):
         tids = sorted(hs[0].get_dict_top_level_hogs(), key=str)
         hogkeys = sorted(nodekey(x) for t in hs[0].get_list_top_level_hogs() for x in all_nodes(t) if isinstance(x, ag.HOG))
         genes = sorted(hs[0].get_dict_extant_genes())
+        subids = sorted(set(str(x.hog_id) for t in hs[0].get_list_top_level_hogs() for x in all_nodes(t)
+                            if isinstance(x, ag.HOG) and x.parent is not None and x.hog_id is not None) | set(str(k_) for k_ in hs[0].get_dict_top_level_hogs() if k_ is not None))
         bad = []
         ops = []
         nops = ex.rng.randint(5, 40 if tier == 'thorough' else 25)
@@ -829,6 +891,8 @@ def c17(tier, seed):
                         ex.res.count('related_comparisons')
                 continue
             if kind == 'gname':
+                if subids and ex.rng.random() < 0.5:
+                    ops.append([w, 'hogid', ex.rng.choice(subids)]); continue
                 ops.append([w, 'gname', ex.rng.choice(taxa)] if taxa else [w, 'tp']); continue
             if kind in ('v', 'l') and len(taxa) >= 2:
                 a, b = ex.rng.sample(taxa, 2); ops.append([w, kind, a, b])
@@ -884,6 +948,9 @@ def c17(tier, seed):
                     if hasattr(g, 'get_ancestral_clustering'):
                         return 'clust ' + ';'.join(sorted(nodekey(a) + '=' + ','.join(sorted(z.unique_id for z in b)) for a, b in g.get_ancestral_clustering().items()))
                     return 'clust -'
+                if kind == 'hogid':
+                    x = h.get_hog_by_id(op[2])
+                    return 'hogid %s' % nodekey(x)
                 if kind == 'gname':
                     g = gs[op[2]]
                     f = h.get_ancestral_genome_by_name if g.taxon.children else h.get_extant_genome_by_name
